@@ -182,7 +182,11 @@ def genotype(
             log.warn("WARNING: Using VCF file. Copy-number calling is not available.")
             # two default copies (one for an X/Y-linked gene of a male) unless the user supplies a structure
             gene.do_copy_number = False
-            profile = Profile("user_provided", cn_solution=cn_solution, **params)
+            # (no copy-number profile is needed; the profile's own parameters still apply)
+            options = Profile.load_options(profile_name) if profile_name else {}
+            profile = Profile(
+                "user_provided", cn_solution=cn_solution, **dict(options, **params)
+            )
             sample = sam.Sample(gene, profile, sam_path, debug=debug)
         else:
             if cn_solution:
